@@ -32,6 +32,7 @@ def run(ctx: Ctx, chk) -> None:
     chk.run_rule(cadence1, ctx)
     chk.run_rule(tasks1, ctx)
     chk.run_rule(save_total, ctx)
+    chk.run_rule(saver_esc, ctx)
     chk.run_rule(disc1, ctx)
     from . import connleak
 
@@ -376,6 +377,38 @@ def disc1(ctx: Ctx, chk) -> None:
                                 continue
                         chk.refute(rule, k, f"{f.qualname} assigns self.{t.attr} (`{norm(node)[:60]}`): after this, disconnect() finds no writer and returns without closing the stream that connect() opened - leaving the gateway context leaves the socket / serial port open", ctx.loc(f, node))
     chk.floor(rule, "assignments of the stream attributes", n, 2)
+
+
+def _saver_bodies(ctx: Ctx) -> list:
+    pers = ctx.cls(PERS)
+    start = pers.find_method("start")
+    bodies = []
+    for g_, c in lifecycle.create_task_sites(ctx):
+        if g_ is start and c.args and isinstance(c.args[0], ast.Call):
+            fn = c.args[0].func
+            if isinstance(fn, ast.Name) and fn.id in start.nested:
+                bodies.append(start.nested[fn.id])
+            elif isinstance(fn, ast.Attribute) and isinstance(fn.value, ast.Name) and fn.value.id == "self" and pers.find_method(fn.attr) is not None:
+                bodies.append(pers.find_method(fn.attr))
+    if not bodies:
+        bodies = [f for f in start.nested.values() if any(isinstance(n, ast.While) for n in ctx.own_nodes(f))]
+    return bodies
+
+
+def saver_esc(ctx: Ctx, chk) -> None:
+    rule = "SAVER-ESC"
+    chk.rule(rule, "nothing but a failed file operation (PersistenceWriteError - disk faults are outside the statement's fault model) or cancellation ends the saver task: any other exception that can escape its body - e.g. RuntimeError from iterating the live registry across a suspension point while a handler registers a node - silently kills the periodic saving and is re-raised by stop() before the final save")
+    from .common import escape_rule
+
+    bodies = _saver_bodies(ctx)
+    if len(bodies) != 1:
+        raise AnalysisError("SAVER-ESC: saver body not recognised")
+    f = bodies[0]
+    eea = ctx.eea()
+    pers = ctx.cls(PERS)
+    esc = eea._apply_suppressions(eea.escapes_of(f, None, cls=pers))
+    PWE = "aiomysensors.exceptions.PersistenceWriteError"
+    escape_rule(ctx, chk, rule, [(f"saver task ({f.qualname})", esc)], lambda exc, site: eea.issub(exc, PWE) or exc == "asyncio.exceptions.CancelledError", eea)
 
 
 def cadence1(ctx: Ctx, chk) -> None:
